@@ -155,8 +155,8 @@ Definition asplit (c : achunk) (t0 : Z) (early : bool) : res (achunk * achunk) :
   match r with
   | None => Err E_CANNOT_SPLIT
   | Some (d1, d2, t') =>
-      do pc <- promised_continuity c;
-      let subs := if pc then split_runs (asub c) t' else (asub c, asub c) in
+      (* since /repo bea6d1c the subruns are always split, also when promised_continuity is False *)
+      let subs := split_runs (asub c) t' in
       let sups := split_runs (Some (asuper c)) t' in
       let run1 := if one_or_none (fst sups) then srun (hd span0 (asuper c)) else crun b in
       let run2 := if one_or_none (snd sups) then srun (last (asuper c) span0) else crun b in
